@@ -9,7 +9,7 @@ picked up by `spawn`ed pool workers).  No change to /repo is needed.
   VERIF_CRASH_AT=k[:tear]     os._exit(137) BEFORE the k-th mutation (0-based); tear in {0, half}
                               first truncates the most recently write-opened file
   VERIF_FAULT=what:idx:kind   fault in partition task idx of explode / encode / plink
-                              (kind raise | exit), installed by wrapping the task function
+                              (kind raise | exit | exit-locked | sigterm | sysexit), installed by wrapping the task function
 """
 import os
 import sys
@@ -97,6 +97,21 @@ if _fault:
             open(_mark, "w").close()
         if _kind == "exit":
             os._exit(3)
+        if _kind == "exit-locked":
+            from bio2zarr import core as _core
+
+            if _core._progress_counter is not None:
+                _core._progress_counter.get_lock().acquire()
+            os._exit(3)
+        if _kind == "sigterm":
+            import signal
+            import time
+
+            os.kill(os.getpid(), signal.SIGTERM)
+            time.sleep(30)
+            os._exit(3)
+        if _kind == "sysexit":
+            raise SystemExit(0)
         raise ValueError("injected fault")
 
     try:
